@@ -21,7 +21,7 @@ func c09Sizes() []int64 { return []int64{0, 1, 2047, 2048, 2049} }
 func TestC09(t *testing.T) {
 	r := NewReporter(t)
 	defer r.Done()
-	r.Rule("every tree with <= N nodes (file sizes 0,1,2047,2048,2049), both modes for a subset, plus the directory-shape families of C07 (entries per directory, exact sector fit, depth, many directories, symbolic links) with a reduced offset set: canonical image = one sequential read; then all single ops and op sequences of depth <= 3 (Seek.Read.Read, Read.ReadAt.Read, relative/end seeks, refused seeks followed by reads, one long-lived handle: whole pass, revisits, second pass; pairs of member files read in alternating pieces; the same with the n-th Open/Close/Seek/Read/ReadAt on a member failing) over offsets = structural boundaries (metadata end, each file start/end/padded end, pad-area start, size) +-1 and lengths {1,2,2047,2048,2049,65536,65537, to-next-boundary +-1}; oracle = bytes.Reader semantics over the canonical image; distinct by (tree, mode, op sequence)")
+	r.Rule("every tree with <= N nodes (file sizes 0,1,2047,2048,2049), both modes for a subset, plus the directory-shape families of C07 (entries per directory, exact sector fit, depth, many directories, symbolic links) with a reduced offset set: canonical image = one sequential read; then all single ops and op sequences of depth <= 3 (Seek.Read.Read, Read.ReadAt.Read, relative/end seeks, refused seeks followed by reads, one long-lived handle: whole pass, revisits, second pass; pairs of member files read in alternating pieces; whole passes and boundary reads over a filesystem whose files report EOF together with their last bytes; the same with the n-th Open/Close/Seek/Read/ReadAt on a member failing) over offsets = structural boundaries (metadata end, each file start/end/padded end, pad-area start, size) +-1 and lengths {1,2,2047,2048,2049,65536,65537, to-next-boundary +-1}; oracle = bytes.Reader semantics over the canonical image; distinct by (tree, mode, op sequence)")
 	base := filepath.Join(scratchBase(), sprintf("verifh-c09-%d", os.Getpid()))
 	root := filepath.Join(base, "root")
 	defer os.RemoveAll(base)
@@ -156,8 +156,22 @@ func c09Case(r *Reporter, root, desc string, treeRep any, build func(dir string)
 		}
 		return ls
 	}
+	eager := false // the member files report io.EOF together with their last bytes
 	run := func(ops []ioOp) bool {
 		view, err := openVISO(root, "/T", ps3)
+		if eager {
+			leaf := newVFs(afero.NewOsFs(), "leaf")
+			leaf.record = false
+			leaf.EagerEOF = true
+			view, err = func() (v *pfs.VirtualISO, err error) {
+				defer func() {
+					if p := recover(); p != nil {
+						v, err = nil, fmt.Errorf("PANIC: %v", p)
+					}
+				}()
+				return pfs.NewVirtualISO(afero.NewBasePathFs(leaf, root), "/T", ps3)
+			}()
+		}
 		if err != nil {
 			r.Violation("C09:reopen-failed", desc+": "+err.Error(), rep(ops))
 			return false
@@ -238,6 +252,27 @@ func c09Case(r *Reporter, root, desc string, treeRep any, build func(dir string)
 		}
 		run(ops)
 	}
+	// the same image over a filesystem whose files report io.EOF together with their last bytes (a legal io.Reader /
+	// io.ReaderAt; only os files wait for the next call): whole passes and reads ending exactly at, one before and one
+	// behind every structural boundary
+	eager = true
+	for _, bs := range []int{2048, 65536, 1 << 20} {
+		var ops []ioOp
+		for i := int64(0); i <= announced/int64(bs)+1; i++ {
+			ops = append(ops, ioOp{Kind: "read", N: bs})
+		}
+		run(ops)
+	}
+	for _, b := range bounds {
+		for _, d := range []int64{-1, 0, 1} {
+			for _, n := range []int{1, 2, 2048, 2049} {
+				if off := b + d - int64(n); off >= 0 && off < announced {
+					run([]ioOp{{Kind: "readat", N: n, Off: off}, {Kind: "seek", Off: off, Whence: io.SeekStart}, {Kind: "read", N: n}, {Kind: "read", N: 3000}})
+				}
+			}
+		}
+	}
+	eager = false
 	// several member files read in alternating pieces through one handle (what a console does when it loads two
 	// files side by side): whatever the view remembers about one member survives reads of another
 	exts := fileExtentsOf(img)
